@@ -25,7 +25,8 @@ from vlib import chem, runner
 
 PROPERTY = 'C14'
 RULE = ('Hypothesis draws a start stream (Stream in l/g/s/L or MultiStream over 2-3 of those phases; packages P, Q '
-        '(permuted), R (superset with Hexane), Pm (same order as P, other property models); flows 0 or 10**u or '
+        '(permuted), R (superset with Hexane), Pm (same order as P, other property models), Px / Pmx (the *same* Chemicals '
+        'object as P / Pm, mixture with excess energies); flows 0 or 10**u or '
         'small dyadics; T, P from 5/4-value palettes or floats) and up to 40 steps.  Each step is drawn from the '
         'operations enabled in the current model state: reads of 19 derived properties on the stream, its proxies, '
         'its partner or a phase view (single, bursts, and the H reads inside mix_from of a temporary stream); item/'
@@ -33,7 +34,7 @@ RULE = ('Hypothesis draws a start stream (Stream in l/g/s/L or MultiStream over 
         'M->S); exchange of two phase rows; H setter; empty(+refill); mix_from; copy_like; copy_flow; link_with (all '
         'flag subsets, both directions); unlink; _reset_thermo; copy(thermo=); proxy(); new partner; exact restore of '
         'an earlier state; read-mutate-read-undo-read patterns (T, P, phase, scale by 2 and 0.5, row exchange, package '
-        'P<->Pm). '
+        'switch among P/Pm/Px/Pmx); read - _reset_thermo of the stream and all its proxies - read [- back - read]. '
         'Oracle: property == same property of a fresh stream built from the reference model (rtol 1e-9) or same '
         'exception type.  Non-trivial: the case re-reads a property through the same access path after the state '
         'changed.  Distinct by (start kind, sequence of operation names with access-path kinds and property names).')
@@ -46,6 +47,8 @@ ASSUMPTIONS = [
     'cross-package donors only Stream->Stream with zero flow for chemicals the receiver lacks',
     'energy-balance mixing of single-phase receivers only with donors that share one phase; H targets inside [H(275 K), H(415 K)]',
     'T in [270, 420] K, P in [1e4, 3e6] Pa, flows finite and non-negative',
+    'energy balances (H setter, mix_from(energy_balance=True)) only on packages without excess energies: with them H(T) of a '
+    'compressed gas is not monotonic and the solved temperature is not unique',
     'writes through a view that the model knows to be detached (known finding C14-F2) are never generated',
     'regions of known findings (F1 cross-reads in a proxy group, F2 detached views, F5 mass writes through a _data_cache '
     'dict held by two streams) are entered only in cases whose drawn `explore` set names them; elsewhere they are avoided '
@@ -55,7 +58,8 @@ ASSUMPTIONS = [
 ]
 REQUIRED_CELLS = {'quick': ['read:path=h', 'read:path=p', 'read:path=v', 'reread', 'op:w_flow', 'op:w_scale', 'op:w_T',
                             'op:w_P', 'op:w_phase', 'op:phases', 'op:w_H', 'op:mix_from', 'op:copy_like', 'op:copy_flow',
-                            'op:link', 'op:unlink', 'op:reset_thermo', 'op:empty', 'op:proxy', 'op:restore', 'op:mixH', 'op:revisit', 'op:swap',
+                            'op:link', 'op:unlink', 'op:reset_thermo', 'op:empty', 'op:proxy', 'op:restore', 'op:mixH', 'op:revisit', 'op:swap', 'op:pkgswitch', 'pkgswitch:same-chemicals',
+                            'pkgswitch:other-chemicals',
                             'start:S', 'start:M'],
                   'thorough': []}
 
@@ -72,6 +76,12 @@ K_PAL = [2., 0.5, 4., 0.25, 10., 0.1, None]
 PHASES = ['l', 'g', 's', 'L']
 RTOL = 1e-9
 T_TOL = 1e-6           # Mixture.T_tol
+TWIN_OF = {'P': 'Px', 'Pm': 'Pmx'}                      # same Chemicals object, different mixture rules
+TWIN = {'P': 'Px', 'Px': 'P', 'Pm': 'Pmx', 'Pmx': 'Pm'}
+CHEMS = {'P': 'P', 'Px': 'P', 'Pm': 'Pm', 'Pmx': 'Pm', 'Q': 'Q', 'R': 'R'}   # package -> its Chemicals object
+SAME_IDS = ['P', 'Pm', 'Px', 'Pmx']                      # same chemical IDs in the same order
+ALL_PK = ['P', 'Q', 'R', 'Pm', 'Px', 'Pmx']
+GAS_SENSITIVE = ['H', 'S', 'h', 'Hnet']                  # what the mixture rules of Px / Pmx change (gas phase)
 EXPLORE = ['xread', 'detached', 'mproxy_ctor', 'mproxy_view', 'datacache']
 
 _PK = {}
@@ -99,6 +109,11 @@ def packages():
     th = tmo.Thermo(tmo.Chemicals(mod))
     runner.register_chemicals(th.chemicals)
     _PK['Pm'] = th
+    # packages on the *same* Chemicals object as P / Pm, other mixture rules (excess energies: changes H, S of gases)
+    for base_id, twin in TWIN_OF.items():
+        c = _PK[base_id].chemicals
+        _PK[twin] = tmo.Thermo(c, mixture=tmo.IdealMixture.from_chemicals(c, include_excess_energies=True))
+        assert _PK[twin].chemicals is c
     for k, t in _PK.items():
         _NAMES[k] = list(t.chemicals.IDs)
         _MW[k] = {n: float(m) for n, m in zip(t.chemicals.IDs, t.chemicals.MW)}
@@ -480,7 +495,7 @@ def build(kind, pkg, phases, rows, T, P, convert=False):
 
 def draw_handle(ch, tag, name, kind=None, pkg=None, phases=None, allowed=None):
     kind = kind or ch.choice(f'{tag}.kind', ['S', 'M'])
-    pkg = pkg or ch.choice(f'{tag}.pkg', ['P', 'Q', 'R', 'Pm'])
+    pkg = pkg or ch.choice(f'{tag}.pkg', ALL_PK)
     names = _NAMES[pkg]
     T = draw_T(ch, f'{tag}.T'); P = draw_P(ch, f'{tag}.P')
     if kind == 'S':
@@ -502,7 +517,7 @@ def draw_handle(ch, tag, name, kind=None, pkg=None, phases=None, allowed=None):
 def draw_donor(ch, tag, recv, allow_multi=True, need_phase=False):
     """A new donor stream admissible for the receiver handle.  Returns (real, state)."""
     if recv.kind == 'S':
-        pkg = ch.choice(f'{tag}.pkg', [recv.pkg, recv.pkg, 'P', 'Q', 'R', 'Pm'])
+        pkg = ch.choice(f'{tag}.pkg', [recv.pkg, recv.pkg] + ALL_PK)
         kind = 'S'
         if allow_multi and pkg == recv.pkg and ch.int(f'{tag}.multi', 0, 3) == 0: kind = 'M'
         phases = None
@@ -613,6 +628,8 @@ def op_mixH(ch, W, ctx):
     F1 = sum(s1['rows'][ph].values()); F2 = sum(s2['rows'][ph].values())
     if not F1 or not F2 or ph in ('s',):
         ctx.cell('avoided:mixH-empty-or-solid'); return
+    if s1['pkg'] in ('Px', 'Pmx'):
+        ctx.cell('avoided:mixH-with-excess-energies'); return
     for p in (p1, p2):
         if p: member_read(W, member(W, p))
     t = tmo.Stream(None, thermo=_PK[s1['pkg']])
@@ -799,6 +816,9 @@ def op_w_H(ch, W, ctx):
     h, rows = target(W, path)
     if not sum(sum(r.values()) for r in st['rows'].values()):
         ctx.cell('avoided:H-setter-on-empty'); return
+    if st['pkg'] in ('Px', 'Pmx'):
+        # with excess energies H(T) of a compressed gas is not monotonic: the solved T is not unique (C02's subject)
+        ctx.cell('avoided:H-setter-with-excess-energies'); return
     lo = attempt(fresh(st, T=275.), 'H'); hi = attempt(fresh(st, T=415.), 'H')
     if lo[0] != 'ok' or hi[0] != 'ok' or not (hi[1] > lo[1]):
         ctx.cell('avoided:H-range-undefined'); return
@@ -900,7 +920,7 @@ def xpkg_allowed(W, ctx, recv, donors, mode):
     """Cross-package transfers reach the receiver package's shared index cache in two incompatible ways
     (index_overlap stores kind 0 with a list, imol[CAS tuple] stores kind 1; defect owned by C10): within
     one case only the first way used on a package is generated."""
-    if not any(st['pkg'] != recv.pkg for st in donors): return True
+    if not any(CHEMS[st['pkg']] != CHEMS[recv.pkg] for st in donors): return True
     cur = W.xpkg_mode.get(recv.pkg)
     if cur is None or cur == mode:
         W.xpkg_mode[recv.pkg] = mode
@@ -912,12 +932,12 @@ def xpkg_allowed(W, ctx, recv, donors, mode):
 def donor_ok(recv, st, need_phase=False):
     """Is a stream in model state st an admissible donor for the receiver handle?"""
     if recv.kind == 'S':
-        if st['kind'] == 'M' and st['pkg'] != recv.pkg: return False
+        if st['kind'] == 'M' and CHEMS[st['pkg']] != CHEMS[recv.pkg]: return False
         if st['kind'] == 'M' and len(st['phases']) < 2: return False
         if st['kind'] == 'M' and need_phase and recv.ph.val not in st['phases']: return False
         nz = {n for r in st['rows'].values() for n, v in r.items() if v}
         return nz <= set(recv.names())
-    if st['pkg'] != recv.pkg: return False
+    if CHEMS[st['pkg']] != CHEMS[recv.pkg]: return False
     if st['kind'] == 'S': return st['phases'][0] in recv.phases
     return sorted(st['phases']) == sorted(recv.phases)
 
@@ -965,6 +985,8 @@ def op_mix_from(ch, W, ctx):
         ctx.cell('avoided:mix-eb-mixed-phases'); eb = False
     if eb and any('s' in st['phases'] and st['rows'].get('s') for _, st, _ in live):
         ctx.cell('avoided:mix-eb-solid'); eb = False
+    if eb and (recv.pkg in ('Px', 'Pmx') or any(st['pkg'] in ('Px', 'Pmx') for _, st, _ in live)):
+        ctx.cell('avoided:mix-eb-with-excess-energies'); eb = False
     region = f'recv={recv.kind},n={min(len(live), 2)},eb={int(eb)},multi={int(any(st["kind"] == "M" for _, st, _ in live))},' \
              f'xpkg={int(any(st["pkg"] != recv.pkg for _, st, _ in live))},self={int(any(k == "self" for _, _, k in live))}'
     a_donor = any((k == 'self' and hn == 'a') or k == 'a' for _, _, k in live)
@@ -1049,7 +1071,7 @@ def op_copy_flow(ch, W, ctx):
     hn = ch.choice('cf.h', handles(W))
     recv = W.h[hn]
     (real, st, k), = draw_donors_fixed(ch, W, ctx, 'cf', recv)
-    xp = st['pkg'] != recv.pkg
+    xp = CHEMS[st['pkg']] != CHEMS[recv.pkg]
     if not xpkg_allowed(W, ctx, recv, [st], 'setitem'): return
     dn = _NAMES[st['pkg']]
     total = {}
@@ -1143,7 +1165,8 @@ def op_reset_thermo(ch, W, ctx):
     if gh and 'detached' not in W.explore:
         ctx.cell('avoided:reset_thermo-with-ghost-views'); return
     nz = h.nonzero_names()
-    cands = [p for p in ('P', 'Pm', 'Q', 'R', 'Pm') if p != h.pkg and nz <= set(_NAMES[p])]
+    cands = [p for p in ('P', 'Pm', 'Q', 'R', 'Pm', 'Px', 'Pmx') if p != h.pkg and nz <= set(_NAMES[p])]
+    if h.pkg in TWIN: cands += [TWIN[h.pkg]] * 2
     if not cands:
         ctx.cell('avoided:reset_thermo-no-admissible-package'); return
     pkg = ch.choice('rt.pkg', cands)
@@ -1164,7 +1187,7 @@ def op_copy_replace(ch, W, ctx):
         ctx.cell('avoided:copy-while-linked'); return
     h = W.h['a']
     nz = h.nonzero_names()
-    cands = [None] + [p for p in ('P', 'Pm', 'Q', 'R') if p != h.pkg and nz <= set(_NAMES[p])]
+    cands = [None] + [p for p in ('P', 'Pm', 'Q', 'R', 'Px', 'Pmx') if p != h.pkg and nz <= set(_NAMES[p])]
     pkg = ch.choice('cp.pkg', cands)
     W.trace.append(f'copy a thermo={pkg}')
     h.real = ctx.call('op.copy', h.real.copy, None, None if pkg is None else _PK[pkg], region=f'kind={h.kind},xpkg={int(pkg is not None)}')
@@ -1273,6 +1296,58 @@ def op_swap(ch, W, ctx):
     mutated(W, W.trace[-1])
 
 
+def switch_pkg(W, ctx, h, pkg):
+    """_reset_thermo on a handle and - like a flowsheet does for all of its streams - on every proxy of it."""
+    ctx.call('op._reset_thermo', h.real._reset_thermo, _PK[pkg], region=f'kind={h.kind},det=0')
+    if h.name == 'a':
+        for p in W.proxies:
+            ctx.call('op._reset_thermo', p._reset_thermo, _PK[pkg], region=f'kind={h.kind},det=0,proxy=1')
+        W.consistent = {'a'} | {f'p{i}' for i in range(len(W.proxies))}
+        W.mut_since_read = False
+    h.pkg = pkg; new_dc(h); views_relinked(h)
+    for r in h.flow.rows.values():
+        for n in [n for n, v in r.items() if not v]: del r[n]
+
+
+def op_pkgswitch(ch, W, ctx):
+    """read - _reset_thermo (preferably to the package on the same Chemicals object) - read - [switch back - read]."""
+    paths = read_paths(W)
+    if not paths:
+        ctx.cell('avoided:no-readable-path'); return
+    p1 = ch.choice('ps.p1', paths)
+    hn = 'a' if p1[0] in ('p', 'pv') else p1[1]
+    h = W.h[hn]
+    if shares(W, h) or ghosts(h):
+        ctx.cell('pkgswitch->read'); return op_read(ch, W, ctx)
+    nz = h.nonzero_names()
+    cands = [x for x in ALL_PK if x != h.pkg and nz <= set(_NAMES[x])]
+    if h.pkg in TWIN: cands = [TWIN[h.pkg]] * 4 + cands
+    if not cands:
+        ctx.cell('pkgswitch->read'); return op_read(ch, W, ctx)
+    snapshot(W)
+    prop = ch.choice('ps.prop', GAS_SENSITIVE * 2 + READ_PROPS)
+    W.trace.append(f'read {pkey(p1)}.{prop}')
+    check_read(W, ctx, p1, prop)
+    old = h.pkg
+    new = ch.choice('ps.pkg', cands)
+    ctx.cell('pkgswitch:same-chemicals' if CHEMS[new] == CHEMS[old] else 'pkgswitch:other-chemicals')
+    switch_pkg(W, ctx, h, new)
+    W.trace.append(f'pkgswitch {hn} {old}->{new}')
+    mutated(W, W.trace[-1])
+    paths = read_paths(W)
+    p2 = ch.choice('ps.p2', [p1] * 2 + paths if p1 in paths else paths)
+    q = ch.choice('ps.prop2', [prop] * 2 + SIBLINGS[prop])
+    W.trace.append(f'read {pkey(p2)}.{q}')
+    check_read(W, ctx, p2, q)
+    if ch.bool('ps.undo') and nz <= set(_NAMES[old]):
+        switch_pkg(W, ctx, h, old)
+        W.trace.append(f'pkgswitch {hn} {new}->{old}')
+        mutated(W, W.trace[-1])
+        if p1 in read_paths(W):
+            W.trace.append(f'read {pkey(p1)}.{prop}')
+            check_read(W, ctx, p1, prop)
+
+
 def op_revisit(ch, W, ctx):
     """read - mutate - read (any path) - undo the mutation exactly - read again through the first path."""
     paths = read_paths(W)
@@ -1288,7 +1363,7 @@ def op_revisit(ch, W, ctx):
     muts = ['T', 'P', 'scale2']
     if h.kind == 'S': muts.append('phase')
     else: muts += ['swap', 'swap']
-    if h.pkg in ('P', 'Pm') and not shares(W, h) and not ghosts(h): muts += ['thermo', 'thermo']
+    if h.pkg in SAME_IDS and not shares(W, h) and not ghosts(h): muts += ['thermo', 'thermo']
     mut = ch.choice('rv.mut', muts)
     obj = h.real
     def reset_to(pkg):
@@ -1310,7 +1385,7 @@ def op_revisit(ch, W, ctx):
     elif mut == 'swap':
         swap_rows(W, ctx, h, obj, pq[0], pq[1])
     elif mut == 'thermo':
-        old = h.pkg; reset_to('Pm' if old == 'P' else 'P')
+        old = h.pkg; reset_to(ch.choice('rv.pkg', [x for x in SAME_IDS if x != old]))
     else:
         ctx.call('op.scale', obj.scale, 2., region=f'path=h,kind={h.kind}')
         for r in h.flow.rows.values():
@@ -1347,7 +1422,7 @@ def op_revisit(ch, W, ctx):
 
 
 OPS = {
-    'read': (op_read, 10), 'revisit': (op_revisit, 3), 'mixH': (op_mixH, 1),
+    'read': (op_read, 10), 'revisit': (op_revisit, 3), 'pkgswitch': (op_pkgswitch, 2), 'mixH': (op_mixH, 1),
     'w_flow': (op_w_flow, 3), 'w_scale': (op_w_scale, 3), 'w_T': (op_w_T, 3), 'w_P': (op_w_P, 2), 'w_phase': (op_w_phase, 2),
     'w_H': (op_w_H, 1), 'swap': (op_swap, 2), 'empty': (op_empty, 1), 'phases': (op_phases, 2), 'mix_from': (op_mix_from, 2),
     'copy_like': (op_copy_like, 1), 'copy_flow': (op_copy_flow, 1), 'link': (op_link, 2), 'unlink': (op_unlink, 1),
